@@ -488,7 +488,8 @@ class Directive(utils.NiceRepr):
         # Flag extracted directives as inline iff the text contains non-comments
         # (blank lines do not count as code)
         inline = not all(line.strip().startswith('#')
-                         for line in text.splitlines() if line.strip())
+                         for line in utils.util_str.split_lf_lines(text)
+                         if line.strip())
         #
         for comment in static.extract_comments(text):
             # remove the first comment character and see if the comment matches
